@@ -211,21 +211,29 @@ TIMING_SCRIPT = r'''
 import sys, time
 sys.path.insert(0, sys.argv[1])
 from debian_inspector import unsign
-fam, n = sys.argv[2], int(sys.argv[3])
-def msg(n, nl, hdrs=0, damage='sig', armor=None):
-    body = nl.join('line %d: x' % i for i in range(n if armor is None else 3))
-    sig = ['-----BEGIN PGP SIGNATURE-----'] + ['a: b: c'] * hdrs + ['', 'iQEzBAEBCAAdFiEE', '=abcd', '-----END PGP SIGNATURE-----']
-    if armor is not None:
-        sig[-3:-2] = [('iQEzBAEBCAAdFiEE' * 5)[:min(armor, 76)]] * max(1, armor // 76)
-    if damage == 'crc3': sig[-2] = '=abc'
-    if damage == 'sig': sig[-2] = '=abc!'
-    if damage == 'body': sig[-3] = 'iQEz!AEB'
-    return '-----BEGIN PGP SIGNED MESSAGE-----' + nl + 'Hash: SHA256' + nl + nl + body + nl + nl.join(sig)
-t = {'crlf-damaged-signature': lambda: msg(n, '\r\n'), 'lf-many-multicolon-headers-damaged-body': lambda: msg(n, '\n', hdrs=n, damage='body'),
-     'lf-damaged-signature': lambda: msg(n, '\n'), 'crlf-wellformed': lambda: msg(n, '\r\n', damage='no'),
-     'lf-long-armor-short-crc': lambda: msg(n, '\n', damage='crc3', armor=n), 'crlf-long-armor-short-crc': lambda: msg(n, '\r\n', damage='crc3', armor=n)}[fam]()
+t = bytes.fromhex(sys.stdin.read().strip()).decode('utf-8')
 t0 = time.perf_counter(); unsign.remove_signature(t); print(time.perf_counter() - t0)
 '''
+
+
+def timing_msg(fam, n):
+    """the message of size n of an adversarial family (the replay of a timing failure is this text)"""
+    def msg(n, nl, hdrs=0, damage='sig', armor=None):
+        body = nl.join('line %d: x' % i for i in range(n if armor is None else 3))
+        sig = ['-----BEGIN PGP SIGNATURE-----'] + ['a: b: c'] * hdrs + ['', 'iQEzBAEBCAAdFiEE', '=abcd', '-----END PGP SIGNATURE-----']
+        if armor is not None:
+            sig[-3:-2] = [('iQEzBAEBCAAdFiEE' * 5)[:min(armor, 76)]] * max(1, armor // 76)
+        if damage == 'crc3':
+            sig[-2] = '=abc'
+        if damage == 'sig':
+            sig[-2] = '=abc!'
+        if damage == 'body':
+            sig[-3] = 'iQEz!AEB'
+        return '-----BEGIN PGP SIGNED MESSAGE-----' + nl + 'Hash: SHA256' + nl + nl + body + nl + nl.join(sig)
+    return {'crlf-damaged-signature': lambda: msg(n, '\r\n'), 'lf-many-multicolon-headers-damaged-body': lambda: msg(n, '\n', hdrs=n, damage='body'),
+            'lf-damaged-signature': lambda: msg(n, '\n'), 'crlf-wellformed': lambda: msg(n, '\r\n', damage='no'),
+            'lf-long-armor-short-crc': lambda: msg(n, '\n', damage='crc3', armor=n),
+            'crlf-long-armor-short-crc': lambda: msg(n, '\r\n', damage='crc3', armor=n)}[fam]()
 
 
 def extra(tier, rng):
@@ -240,16 +248,18 @@ def extra(tier, rng):
         prev = None
         for n in sizes:
             try:
-                p = subprocess.run([sys.executable, '-c', TIMING_SCRIPT, src, fam, str(n)], stdout=subprocess.PIPE, stderr=subprocess.PIPE, timeout=20)
+                text = timing_msg(fam, n)
+                p = subprocess.run([sys.executable, '-c', TIMING_SCRIPT, src], input=text.encode('utf-8').hex().encode('ascii'),
+                                   stdout=subprocess.PIPE, stderr=subprocess.PIPE, timeout=20)
                 t = float(p.stdout.decode().strip() or 'nan')
             except subprocess.TimeoutExpired:
                 t = None
             times['%s@%d' % (fam, n)] = t
             if t is None:
-                fails.append({'op': 'C16', 'input': 'timing:%s:%d' % (fam, n), 'what': 'remove_signature did not finish in 20 s on family %s with %d body lines' % (fam, n)})
+                fails.append({'op': 'C16', 'input': timing_msg(fam, n), 'what': 'remove_signature did not finish in 20 s on family %s with %d body lines' % (fam, n)})
                 break
             if prev is not None and t > 0.05 and prev[0] * 2 == n and t / max(prev[1], 1e-6) > 6:
-                fails.append({'op': 'C16', 'input': 'timing:%s:%d' % (fam, n), 'what': 'time grows by more than x6 per doubling on family %s: %.3fs -> %.3fs' % (fam, prev[1], t)})
+                fails.append({'op': 'C16', 'input': timing_msg(fam, n), 'what': 'time grows by more than x6 per doubling on family %s: %.3fs -> %.3fs' % (fam, prev[1], t)})
             prev = (n, t)
     return {'timing_seconds': times, 'timing_note': 'measured, not proved'}, fails
 
